@@ -93,6 +93,30 @@ def run_case(g, H):
                 os.makedirs(os.path.join(libroot, "zz-other"), exist_ok=True)
                 open(os.path.join(libroot, "zz-other", "keep.txt"), "w").write("keep")
         htmlfile = os.path.join(dest, g.get("file", "page.html"))
+        if g.get("twice"):
+            # history: an earlier save_html() into the same destination in this process, after which the destination
+            # and the sources change (a copied file is deleted, a stale one appears, a source file gets new content)
+            try:
+                H.tags.div("first", *deps).save_html(os.path.join(dest, "first.html"), libdir=libdir, include_version=g["inclver"])
+                os.remove(os.path.join(dest, "first.html"))
+            except Exception:  # noqa
+                pass
+            for di, d in enumerate(g["deps"]):
+                tname = d["name"] + ("-" + str(deps[di].version) if g["inclver"] else "")
+                tdir = os.path.join(libroot, tname)
+                if os.path.isdir(tdir):
+                    copied = sorted(os.path.join(dp, f) for dp, _, fs in os.walk(tdir) for f in fs)
+                    if copied:
+                        os.remove(copied[0])
+                    open(os.path.join(tdir, "left-over.txt"), "w").write("stale")
+                if d["src"] in ("dir", "package") and d["present"]:
+                    sd = recs[di]
+                    srcdir_i = os.path.join(tmp, f"src{di}") if d["src"] == "dir" else None
+                    if srcdir_i:
+                        p0 = os.path.join(srcdir_i, d["present"][0])
+                        if os.path.isfile(p0):
+                            open(p0, "wb").write(b"rebuilt content")
+                        recs[di]["srcfiles"] = project(srcdir_i)
         before = project(dest)
         how = g.get("how", "tag")
         obj = {"tag": lambda: H.tags.div("x", *deps), "list": lambda: H.TagList("x", *deps),
@@ -184,7 +208,8 @@ class C12(Prop):
                              "href": rnd.choice(["https://cdn.example/lib", "https://cdn.example/lib/"]),
                              "links": [f for f in listed if f.endswith(".css")], "scripts": [f for f in listed if not f.endswith(".css")],
                              "present": present, "allfiles": rnd.random() < 0.3, "stale": rnd.choice(["none", "file", "other"])})
-            gens.append({"kind": "case", "seed": n, "libdir": rnd.choice(["lib", None, "a/b", "my lib"]), "inclver": rnd.random() < 0.5,
+            gens.append({"kind": "case", "seed": n, "twice": rnd.random() < 0.3,
+                         "libdir": rnd.choice(["lib", None, "a/b", "my lib"]), "inclver": rnd.random() < 0.5,
                          "how": rnd.choice(["tag", "list", "doc"]), "file": rnd.choice(["page.html", "sub dir/index.html"]) if False else "page.html",
                          "deps": deps})
         return gens
